@@ -183,12 +183,17 @@ def opDiagJsonDecode : Handler := fun _ j => do
 def opDecisionEncode : Handler := fun _ j => do
   .ok (hex (encodeDecisionText (← jBool (← field j "allow"))))
 
-/-- `json.Unmarshal(text, &decision)`: a syntax error is reported before `UnmarshalJSON` is reached -/
+/-- `json.Unmarshal(text, &decision)` where `decision` holds `recv` (absent: the zero value, Deny) before the call: a
+    syntax error is reported before `UnmarshalJSON` is reached -/
 def opDecisionDecode : Handler := fun _ j => do
   let raw ← jHex (← field j "text")
+  let recv ← match j.getObjVal? "recv" with
+    | .ok r => jBool r
+    | .error _ => pure false
   match Json.parse raw with
   | .error _ => .ok "err"
-  | .ok _ => .ok (if decodeDecisionText (trimJsonSpace raw) then "ok allow" else "ok deny")
+  | .ok _ =>
+    showRC13 (fun (d : Bool) => if d then "allow" else "deny") (decodeDecisionInto recv (trimJsonSpace raw))
 
 def opJStrToken : Handler := fun _ j => do
   match jsonStringToken (← jHex (← field j "text")) with
